@@ -119,7 +119,7 @@ class Ctx:
         if cfg:
             cmd += ["-config", cfg]
         cmd += (extra or []) + [module + ".tla"]
-        jopts = "-Xss" + xss
+        jopts = "-Xss" + xss + " -XX:ParallelGCThreads=%d" % max(2, min(8, workers or NCPU))
         if heap:
             jopts += " -Xmx" + heap
         env = dict(os.environ)
